@@ -23,7 +23,7 @@ DESIGN_REF = '6.3'
 TECHNIQUE = ('decision-table product (exception source x want form x flags x flag carrier x position) enumerated '
              'exhaustively, cells instantiated with Hypothesis-drawn messages; oracle table written from the statement, '
              'true exception text from CPython')
-LEVEL_TEXT = ("Every cell of the table exception-source (8) x want-form (10) x flag-set (8) x carrier (3) x position (3) is "
+LEVEL_TEXT = ("Every cell of the table exception-source (11, incl. SyntaxError and IndentationError raised at run time and an exception group) x want-form (10) x flag-set (8) x carrier (3) x position (3) is "
               "visited (quick: with two fixed messages; thorough: plus tens of thousands of drawn messages) and the verdict, "
               "the recorded exception class and the trace of statements before/after are compared with the table written "
               "from the statement. Fault-enumeration style exploration of a finite table with sampled parameters.")
@@ -38,7 +38,7 @@ ASSUMPTIONS = [
     "traceback.format_exception_only gives the final line(s) CPython prints for the exception",
 ]
 
-SOURCES = ['builtin', 'nomsg', 'qualified', 'qualified2', 'userdef', 'library', 'helper', 'noraise']
+SOURCES = ['builtin', 'nomsg', 'qualified', 'qualified2', 'userdef', 'library', 'helper', 'noraise', 'syntax_eval', 'indent_exec', 'group']
 FORMS = ['none', 'exact', 'stack', 'innermost', 'wrongmsg', 'wrongtype', 'prose', 'bare', 'ellipsis', 'unqualified']
 FLAGSETS = [(), ('IED',), ('-ELL',), ('IW',), ('IED', '-ELL'), ('IED', 'IW'), ('-ELL', 'IW'), ('IED', '-ELL', 'IW')]
 CARRIERS = ['block', 'inline', 'default']
@@ -68,6 +68,13 @@ def raising_lines(source, msg, k):
         return ['def boom{}(m):'.format(k), '    raise KeyError(m)'], 'boom{}({})'.format(k, m)
     if source == 'noraise':
         return [], 'T.append(50)'
+    if source == 'syntax_eval':
+        # a SyntaxError raised at run time carries file / source / caret lines; only its final line is the message
+        return [], "eval('1 +' + {})".format(repr(' ' * (len(msg) % 3)))
+    if source == 'indent_exec':
+        return [], "exec('if 1:\\nx = ' + {})".format(repr(str(len(msg))))
+    if source == 'group':
+        return [], 'raise ExceptionGroup({}, [ValueError(1), KeyError(2)])'.format(m)
     raise KeyError(source)
 
 
@@ -218,6 +225,11 @@ def check_case(case, ctx):
         return 'n/a'
     doc, default_state, trace_before, final, excname = built
     source, form, flags = case['source'], case['form'], tuple(case['flags'])
+    if form in ('ellipsis', 'wrongmsg', 'unqualified') and final is not None:
+        # a drawn message can make the altered want coincide with the exact one (message '...'): then it *is* the exact form
+        fb = 'ValueError: ' + (case['msg'] or 'm')
+        if want_lines(form, final, fb) == want_lines('exact', final, fb):
+            form = 'exact'
     exp = expected(source, form, flags)
     if exp is None:
         return 'unspecified'
